@@ -349,12 +349,18 @@ theorem clone_regions {h : Heap} {s : Id} {tr dbg : Bool} {h' : Heap} {c : Id} (
 Three persons in two groups; an input, a person formula, a group sum, an eternal input; the original
 has an input and a cached value when it is cloned. -/
 
-def exSys : Sys := [⟨0, .month, 0, none⟩, ⟨0, .month, 5, some (3, [⟨2, 0, .same, .same⟩])⟩,
-  ⟨1, .month, 0, some (0, [⟨1, 0, .members, .same⟩])⟩, ⟨0, .eternity, 7, none⟩,
-  ⟨1, .month, 0, some (0, [⟨1, 0, .membersRole [2], .same⟩, ⟨10, 0, .nbPersons [3], .same⟩])⟩,
-  ⟨0, .month, 0, some (0, [⟨1, 0, .hasRole 1 [2], .same⟩])⟩]
-/-- person 0 holds the first flattened role, person 1 the role `r1` (2), person 2 the role `r2` (3) -/
-def exSpec : SimSpec := ⟨3, [⟨1, 2, [0, 0, 1], some [0, 2, 3]⟩], none⟩
+def vd (e : Nat) (u : DUnit) (d : Int) (f : Option (Int × List Term)) : VarDecl :=
+  { entity := e, defPeriod := u, dflt := d, formula := f }
+def exSys : Sys := [vd 0 .month 0 none, vd 0 .month 5 (some (3, [⟨2, 0, .same, .same⟩])),
+  vd 1 .month 0 (some (0, [⟨1, 0, .members, .same⟩])), vd 0 .eternity 7 none,
+  vd 1 .month 0 (some (0, [⟨1, 0, .membersRole [2], .same⟩, ⟨10, 0, .nbPersons [3], .same⟩])),
+  vd 0 .month 0 (some (0, [⟨1, 0, .hasRole 1 [2], .same⟩]))]
+/-- person 0 holds the first flattened role, person 1 the role `r1` (2), person 2 the role `r2` (3); in the
+first group the positions were assigned against the order of appearance -/
+def exSpec : SimSpec :=
+  { persons := 3, memConfig := none,
+    groups := [{ entity := 1, count := 2, membersEntityId := [0, 0, 1], roles := some [0, 2, 3],
+                 positions := some [1, 0, 0] }] }
 def exM1 : Period := ⟨.month, ⟨2018, 1, 1⟩, 1⟩
 def exM2 : Period := ⟨.month, ⟨2018, 2, 1⟩, 1⟩
 def exS : Id := ⟨0, 0⟩
@@ -369,8 +375,8 @@ def exOps : List (Side × Op) :=
    (.orig, .calculate 1 exM2), (.clone, .setTrace true), (.clone, .calculate 3 exM2)]
 
 /-- the same simulation with `MemoryConfig(max_memory_occupation=0)`: its input is stored on disk -/
-def exDiskSys : Sys := [⟨0, .month, 0, none⟩]
-def exDiskH : Heap := runSide exDiskSys 40 exS [.setInput 0 exM1 [1]] (build ⟨1, [], some ⟨[]⟩⟩ []).2
+def exDiskSys : Sys := [vd 0 .month 0 none]
+def exDiskH : Heap := runSide exDiskSys 40 exS [.setInput 0 exM1 [1]] (build { persons := 1, groups := [], memConfig := some { priority := [] } } []).2
 def exDiskH' : Heap := (cloneSim exS false false exDiskH).2
 
 end OFCore.Heap
